@@ -255,6 +255,9 @@ func unevenPartSet(data []byte, salt int) *types.PartSet {
 
 // finishByzVote draws the recipients and the optional signature defect of a Byzantine vote.
 func (s *sim) finishByzVote(rng *simcore.RNG, op simcore.Op) simcore.Op {
+	if s.cfg.Bool("byz_old_ts") && rng.Bool(0.5) {
+		op["tsback"] = rng.Range(1, 3600000) // milliseconds before now
+	}
 	if rng.Bool(0.6) && len(s.nodes) > 1 {
 		var t []int
 		for i := range s.nodes {
@@ -500,6 +503,10 @@ func (s *sim) applyByz(op simcore.Op) bool {
 		}
 		// timestamps that keep block time (the weighted median of the commit) increasing
 		ts := time.Now().UTC().Add(time.Duration(h-s.genDoc.InitialHeight+1)*time.Second + time.Duration(op.Int("r"))*time.Millisecond)
+		if tb := op.Int("tsback"); tb > 0 {
+			ts = time.Now().UTC().Add(-time.Duration(tb) * time.Millisecond)
+			s.env.Count("fault.byz_vote_backdated")
+		}
 		v := &types.Vote{Type: typ, Height: h, Round: int32(op.Int("r")), BlockID: bid, Timestamp: ts, ValidatorAddress: b.addr, ValidatorIndex: vi}
 		signed := v.Copy()
 		chain := s.chainID
